@@ -152,7 +152,7 @@ def multi_cut_descriptions():
     for k in (2, 3, 4):
         for dbl in ((), (0,), (k - 1,)) + (((1,),) if k >= 3 else ()):
             if k == 2 and dbl:
-                continue   # a four-ring with a double rung next to ... keep the plain square only
+                continue   # cyclobutene cut across its double bond is already in the small-molecule blocks
             mol = ladder(k, dbl)
             out.append((mol, [0] * k + [1] * k))
             if k >= 3:
